@@ -25,7 +25,7 @@ ASSUMPTIONS = ["the invariant is an internal-state invariant by nature: the rust
 
 def gen(rng, i, tier):
     return {"seed": rng.randrange(1 << 40), "n_ops": rng.choice([5, 12, 25, 40, 60]), "p_collide": rng.choice([0.2, 0.35, 0.5]),
-            "two_systems": i % 3 == 1, "no_reports": i % 2 == 1}
+            "two_systems": i % 3 == 1, "no_reports": i % 2 == 1, "second_is_copy": i % 6 == 1}
 
 
 def directed():
@@ -37,8 +37,13 @@ def run(ctx, case):
     rng = random.Random(case["seed"])
     # one system, or two systems alive side by side whose edits are interleaved (a call on one must not reach the other)
     systems = []
-    for _ in range(2 if case.get("two_systems") else 1):
-        so, start = hist.start_system(rng, ns)
+    for k_ in range(2 if case.get("two_systems") else 1):
+        if k_ == 1 and case.get("second_is_copy"):
+            import copy
+
+            so, start = copy.deepcopy(systems[0]["sys"]), dict(systems[0]["start"], copy_of_first=True)
+        else:
+            so, start = hist.start_system(rng, ns)
         systems.append({"sys": so, "start": start, "broken": set(x[0] for x in hist.invariants(so))})
     ops = []
     acc = rej = 0
